@@ -205,9 +205,27 @@ func runC11Conc(c *Ctx, r *Rng, rounds int) {
 			}
 		}
 	}()
+	// a second party takes snapshots of the same tree at the same time (two components scraping one test scope): every
+	// snapshot is complete on its own, whatever other snapshots are being taken
+	done2 := make(chan struct{})
+	go func() {
+		defer close(done2)
+		for {
+			select {
+			case <-stop:
+				return
+			default:
+			}
+			s2 := ts.Snapshot()
+			for k := range s2.Counters() {
+				delete(s2.Counters(), k)
+			}
+		}
+	}()
 	wg.Wait()
 	close(stop)
 	<-done
+	<-done2
 	if ok {
 		ok = judge(true)
 	}
@@ -293,7 +311,7 @@ func suiteC11Conc(c *Ctx) {
 			}
 		}
 	}
-	c.Cov.Rule = "all schedules of two threads deriving the same new subscope of a test scope (parked before the registry's read and write locks), recording and closing it: the final snapshot shows everything recorded; then free-running: 4 recorder goroutines (own counter, gauge, timer, value histogram each on one of four scopes of a test scope tree, one shared counter, a first use of a fresh name and of a fresh subscope every 4th round) against a goroutine that takes snapshots in a loop, writes into every snapshot, and judges each: counters between the previous snapshot's value and what had been added, timer values an in-order prefix, histogram totals bounded; final snapshot exact; a process killed by the runtime (concurrent map access) is reported by check.py as a violation; nontrivial = at least two snapshots were taken while recording went on"
+	c.Cov.Rule = "all schedules of two threads deriving the same new subscope of a test scope (parked before the registry's read and write locks), recording and closing it: the final snapshot shows everything recorded; then free-running: 4 recorder goroutines (own counter, gauge, timer, value histogram each on one of four scopes of a test scope tree, one shared counter, a first use of a fresh name and of a fresh subscope every 4th round) against a goroutine that takes snapshots in a loop, writes into every snapshot, and judges each (while a second goroutine takes and scribbles over snapshots of its own): counters between the previous snapshot's value and what had been added, timer values an in-order prefix, histogram totals bounded; final snapshot exact; a process killed by the runtime (concurrent map access) is reported by check.py as a violation; nontrivial = at least two snapshots were taken while recording went on"
 	n := c.N(12, 120)
 	for i := 0; i < n; i++ {
 		runC11Conc(c, c.Rng.Fork(), 300)
